@@ -365,6 +365,112 @@ def ob_reshift_bound(F, parent, fn, sites):
     return True, "limit/batch per implementation: %s; (K-1)+B+1 <= 65535" % out
 
 
+def assert_restates_guard(F, b, site_bb):
+    """A new `assert!` / `debug_assert!` whose condition is implied by the linear guards that dominate it (the negated exit
+    condition of the loop just left, a length test that already returned Err ...) cannot fire: it needs no review."""
+    from .. import lin
+    from ..aff import aff_add, aff_const, TOP
+    # the two-way switch whose one edge leads (through straight-line blocks) to the panic call
+    cur, hops = site_bb, 0
+    sw = None
+    while hops < 6:
+        ps = [p for p in b.pred(cur) if p in b.normal_blocks()]
+        if len(ps) != 1:
+            return False, "no single controlling test"
+        p = ps[0]
+        t = b.term(p)
+        if t["k"] == "switch" and len(t["targets"]) == 1:
+            sw = (p, cur)
+            break
+        if t["k"] not in ("goto", "call", "drop"):
+            return False, "no controlling test"
+        cur, hops = p, hops + 1
+    if sw is None:
+        return False, "no controlling test"
+    sb, toward_panic = sw
+    t = b.term(sb)
+    dp = op_place(t["d"])
+    d = b.single_def(dp["l"]) if dp is not None and not dp["p"] else None
+    neg = False
+    while d and d[2] == "assign" and d[3]["k"] == "unop" and d[3]["op"] == "Not":
+        q = op_place(d[3]["a"])
+        d = b.single_def(q["l"]) if q is not None and not q["p"] else None
+        neg = not neg
+    if not (d and d[2] == "assign" and d[3]["k"] == "binop" and d[3]["op"] in ("Lt", "Le", "Gt", "Ge", "Eq", "Ne")):
+        return False, "the asserted condition is not a comparison"
+    zero_edge = t["targets"][0][1] if t["targets"][0][0] == 0 else None
+    panic_on_false = (toward_panic == zero_edge)
+    if neg:
+        panic_on_false = not panic_on_false
+    want_true = panic_on_false                     # the comparison must be true for the assertion to hold
+    L, sites, facts, inn, out = lin.sites_and_facts(F, b)
+    env = lin._env_at(L, b, d[0], d[1], inn)
+    a, c = L.operand(env, d[3]["l"]), L.operand(env, d[3]["r"])
+    linear = not (a is TOP or c is TOP)
+    if not linear:
+        a = c = aff_const(0)
+    one = aff_const(1)
+    ge = lambda x, y, strict=False: aff_add(aff_add(x, y, -1), one, -1) if strict else aff_add(x, y, -1)
+    op = d[3]["op"]
+    if not want_true:
+        op = {"Lt": "Ge", "Le": "Gt", "Gt": "Le", "Ge": "Lt", "Eq": "Ne", "Ne": "Eq"}[op]
+    obs = {"Lt": [ge(c, a, True)], "Le": [ge(c, a)], "Gt": [ge(a, c, True)], "Ge": [ge(a, c)], "Eq": [ge(a, c), ge(c, a)]}.get(op)
+    if obs is None:
+        obs, linear = [], False
+    here = [f for f in facts if lin.holds_at(b, f[0], sb)]
+    ok = linear and all(lin.entailed(o, here) is not None for o in obs)
+    if not ok:
+        # the same comparison was just decided: the assertion sits on the edge of a dominating test of the same two
+        # operands on which it is true (`while x & 7 != 0 { .. } debug_assert_eq!(x & 7, 0)`), nothing in between
+        dl, dr = flow.describe(b, d[3]["l"], names=True), flow.describe(b, d[3]["r"], names=True)
+        NEG = {"Lt": "Ge", "Le": "Gt", "Gt": "Le", "Ge": "Lt", "Eq": "Ne", "Ne": "Eq"}
+        for sb2 in sorted(b.normal_blocks()):
+            t2 = b.term(sb2)
+            if sb2 == sb or t2["k"] != "switch" or len(t2["targets"]) != 1:
+                continue
+            p2 = op_place(t2["d"])
+            d2 = b.single_def(p2["l"]) if p2 is not None and not p2["p"] else None
+            if not (d2 and d2[2] == "assign" and d2[3]["k"] == "binop" and d2[3]["op"] in NEG):
+                continue
+            if (flow.describe(b, d2[3]["l"], names=True), flow.describe(b, d2[3]["r"], names=True)) != (dl, dr):
+                continue
+            for edge_true, tgt in ((False, t2["targets"][0][1] if t2["targets"][0][0] == 0 else None), (True, t2["otherwise"])):
+                if tgt is None or not b.edge_dominates(sb2, tgt, sb):
+                    continue
+                holds = d2[3]["op"] if edge_true else NEG[d2[3]["op"]]
+                if holds != op:
+                    continue
+                # straight line from that edge to the assertion, no call and no store through a projection on the way
+                cur, clean, steps = tgt, True, 0
+                while cur != sb and steps < 8:
+                    tt = b.term(cur)
+                    if any(st["k"] == "assign" and st["p"]["p"] for st in b.stmts(cur)):
+                        clean = False
+                        break
+                    if tt["k"] == "goto":
+                        nxt_b = tt["t"]
+                    elif tt["k"] == "switch" and flow.const_eval(b, tt["d"]) is not None:
+                        kv = flow.const_eval(b, tt["d"])            # `if cfg!(debug_assertions)`
+                        nxt_b = dict((v, x) for v, x in tt["targets"]).get(kv, tt["otherwise"])
+                    else:
+                        clean = False
+                        break
+                    cur, steps = nxt_b, steps + 1
+                if clean and cur == sb and not any(st["k"] == "assign" and st["p"]["p"] for st in b.stmts(sb)):
+                    ok = True
+    if not ok and op in ("Lt", "Le"):
+        # an upper limit that upper-bound inference already knows (field invariants such as "0..8 bits buffered")
+        try:
+            from ..ub import UB
+            U = UB(F)
+            k = flow.const_eval(b, d[3]["r"])
+            ubv = U.operand(b, d[3]["l"], d[0])
+            ok = k is not None and (ubv < k if op == "Lt" else ubv <= k)
+        except Exception:
+            ok = False
+    return ok, "%s(%s, %s) follows from the guards in force" % (op, flow.describe(b, d[3]["l"], names=True), flow.describe(b, d[3]["r"], names=True)) if ok else "not implied by the dominating guards"
+
+
 OBLIGATIONS = {
     "cabac-in-memory": ob_cabac_in_memory, "vp8-ctor-in-memory": ob_vp8_ctor, "checksum-dead": ob_checksum_dead,
     "iterate-offset": ob_iterate_offset, "depth-estimator-variants": ob_depth_variants, "tree-code-not-Code": ob_tree_code,
@@ -389,6 +495,11 @@ def check_sites(F, rep, rule, entries, floor):
         row = T.ROWS.get((short, kind))
         key = "%s|%s" % (short, kind)
         where = ss[0]["where"]
+        if row is None and re.match(r"^(debug_)?assert(_eq|_ne)?!$", kind):
+            res = [assert_restates_guard(F, F.bodies[s0["fn"]], s0["bb"]) for s0 in ss]
+            if all(ok for ok, _ in res):
+                rep.add(rule, "restates-guard:" + key, True, where, "; ".join(w for _, w in res))
+                continue
         if row is None:
             rep.add(rule, "unreviewed:" + key, False, where,
                     "explicit failure construct (%d site(s)) on a path that digests untrusted bytes is not in the reviewed table; reachable via %s" % (
